@@ -397,7 +397,7 @@ func genVP8Frame(rng *rand.Rand, maxMBW, maxMBH int, force string) genVP8 {
 	segProbs := [3]int{255, 255, 255}
 	hd.put(b2i(useSeg), 128)
 	baseQ := rng.Intn(128)
-	if force == "high-q" {
+	if force == "high-q" || force == "hostile-coeffs" {
 		baseQ = 110 + rng.Intn(18)
 	}
 	level := rng.Intn(64)
@@ -535,6 +535,9 @@ func genVP8Frame(rng *rand.Rand, maxMBW, maxMBH int, force string) genVP8 {
 	}
 	if amp < 3 {
 		amp = 3
+	}
+	if force == "hostile-coeffs" {
+		amp = 2114 // the largest level the token syntax can express; level x quantiser no longer fits 16 bits
 	}
 	topModes := make([]int, 4*mbw) // intra 4x4 mode context (B_DC_PRED = 0)
 	type nzc struct {
